@@ -44,6 +44,8 @@ def numel_type(ty):
         for f in ty[1]:
             n *= numel_type(f)
         return n
+    if ty[0] == 'u':
+        return sum(numel_type(f) for f in ty[1])
     return ty[1] + numel_type(ty[2]) + ty[3]
 
 
@@ -62,9 +64,20 @@ def gen_type(rng, cap=6, depth=2):
             fs.append(f)
             rem = max(1, rem // max(1, numel_type(f)))
         return ('x', fs)
-    b, a = rng.randint(0, 2), rng.randint(0, 2)
-    t = gen_type(rng, max(1, cap - b - a), depth - 1)
-    return ('s', b, t, a)
+    if r < 0.88 or cap < 2:
+        b, a = rng.randint(0, 2), rng.randint(0, 2)
+        t = gen_type(rng, max(1, cap - b - a), depth - 1)
+        return ('s', b, t, a)
+    # a DISJOINT UNION of index types: a pattern may back any one summand (an injection), so two tensors over
+    # the same index type can have disjoint supports (the library's SumAxis with different before / after)
+    fs, rem = [], cap
+    for _ in range(rng.randint(2, 3)):
+        f = gen_type(rng, max(1, min(3, rem - 1)), depth - 1)
+        if numel_type(f) == 0 or numel_type(f) > rem:
+            f = ('n', 1)
+        fs.append(f)
+        rem = max(1, rem - numel_type(f))
+    return ('u', fs)
 
 
 class Pool:
@@ -95,6 +108,11 @@ def gen_axis(rng, ty, pool: Pool, p_whole=0.4):
         return pool.axis(ty)
     if ty[0] == 'x':
         return {'k': 'X', 'fs': [gen_axis(rng, f, pool, p_whole) for f in ty[1]]}
+    if ty[0] == 'u':
+        i = rng.randrange(len(ty[1]))
+        before = sum(numel_type(f) for f in ty[1][:i])
+        after = sum(numel_type(f) for f in ty[1][i + 1:])
+        return {'k': 'S', 'b': before, 't': gen_axis(rng, ty[1][i], pool, p_whole), 'a': after}
     return {'k': 'S', 'b': ty[1], 't': gen_axis(rng, ty[2], pool, p_whole), 'a': ty[3]}
 
 
